@@ -21,6 +21,11 @@ CHECKS["C07"] = dict(
   text="No path of the seven Base58/Base58Check/bech32 entry points (in-repo callees included) writes memory reachable from an argument; alphabet/decode-table agreement symbol by symbol against the Bitcoin and BIP173 constants; every accepting return of CheckDecode is behind a full 4-byte SHA256d comparison over input[:len-4] with len>=5, bech32.Decode behind remainder==1; BIP173 length, separator, character-range, single-case guards and ConvertBits padding rejection lie on every accepting path. Structural clauses only; bijectivity of the radix arithmetic is not decided.",
   note="Trusted: out-of-repo callees read-only on slice arguments except the listed writer table; spec constants. Not decided: value-level inverse property.",
   ref="§3 C07")
+CHECKS["C13"] = dict(
+  technique="structural agreement of the hash-to-range pipeline at every keyed-hash call site + forward taint (64-bit set values must not reach a narrowing conversion) over go/ssa",
+  text="All keyed-hash sites of package gcs (builder, Match, ZipMatchAny, HashMatchAny) feed the same range-reduction function with the hi/lo halves of the same modulus field and use the reduced value only for append / compare / map key; no reduced hash, decoded delta or sum of deltas reaches a narrowing conversion on any path (the strategies cannot disagree on a low-32-bit collision); MatchAny forwards its own arguments unchanged. Necessary structural conditions of 'no false negatives / strategies agree'; the Golomb-Rice codec round trip itself is not decided.",
+  note="Trusted: siphash.Sum64, bstream reader. Not decided: bit-stream codec arithmetic, sortedness.",
+  ref="§3 C13")
 
 NA_REASON = {
  "C17": "Every clause with content is a statement about IEEE-754 rounding of f*1e8, a/10^k and shortest-decimal printing over 2.1e15 integers; no fact about the shape of amount.go implies or refutes it, and the two shape-level clauses (NaN/Inf rejected, unit labels) are already pinned by the suite (DESIGN.md §4).",
